@@ -306,12 +306,16 @@ def absFilter (ar : IntArith) (input : V) (args : List V) : Res V :=
   | [] => (match input.asScalar? with | some x => absScalar ar x | none => .err)
   | _ => .err
 
-/-- ceil / floor: `to_float` (also for integers!), round, `as i64` -/
+/-- ceil / floor: a whole number (or a string spelling one) is returned as it is (after the `fix:`
+commit; it used to go through `f64` like everything else); otherwise `to_float`, round, `as i64` -/
 def toI64Filter (mode : Int → Int) (input : V) (args : List V) : Res V :=
   match args with
   | [] =>
     match input.asScalar? with
-    | some x => (match x.toFloatBits? with | some f => .ok (intV (fToI64 mode f)) | none => .err)
+    | some x =>
+      (match x.toInteger? with
+       | some i => .ok (intV i)
+       | none => (match x.toFloatBits? with | some f => .ok (intV (fToI64 mode f)) | none => .err))
     | none => .err
   | _ => .err
 
@@ -323,6 +327,7 @@ float; `n > i32::MAX`: error. -/
 def roundGo (ops : FloatOps) (input : V) (n : Int) : Res V :=
   match input.asScalar? with
   | some x =>
+    if n ≤ 0 ∧ (x.toInteger?).isSome then .ok (intV ((x.toInteger?).getD 0)) else
     match x.toFloatBits? with
     | some f =>
       if n ≤ 0 then .ok (intV (fToI64 roundQ f))
